@@ -712,12 +712,22 @@ start:
 	}
 
 	processPhis := func(b *ir.BasicBlock, i int, s state) state {
+		// All phis of a block are evaluated in parallel: an edge may refer to
+		// another phi of the same block (variables swapped in a loop), and
+		// must then see the value from before the jump. Read all incoming
+		// values before recording any.
+		var phis []*ir.Phi
+		var incoming []ValueNilness
 		for _, instr := range b.Instrs {
 			if instr, ok := instr.(*ir.Phi); ok {
-				s.set(instr, s.get(instr.Edges[i]))
+				phis = append(phis, instr)
+				incoming = append(incoming, s.get(instr.Edges[i]))
 			} else {
 				break
 			}
+		}
+		for j, phi := range phis {
+			s.set(phi, incoming[j])
 		}
 		return s
 	}
